@@ -69,6 +69,8 @@ def main(argv):
     unit_names = list(spec['quick'])
     if tier == 'thorough':
         unit_names += [u for u in spec.get('thorough', []) if u not in unit_names]
+    if any(not u.startswith('kani_') for u in unit_names) and 'canary_m0' not in unit_names:
+        unit_names.append('canary_m0')     # vacuity guard of the amount shim's axiom group (every Verus unit rests on it)
     if only_units:
         unit_names = [u for u in unit_names if u in only_units]
     known = load_known()
@@ -94,6 +96,8 @@ def main(argv):
         cmds.append(r.get('cmd', ''))
         for u in r.get('undecided', []):
             # an undecided diagnostic matters if it is about this property's obligations or unattributed
+            if u.get('props') is not None and prop not in u['props']:
+                continue      # a demoted function that carries no obligation of this property
             undecided.append({'unit': r['name'], 'reason': u.get('reason', ''), 'detail': (u.get('rendered') or u.get('stderr') or '')[:1500]})
         failed_ids = {}
         for f in r.get('failures', []):
@@ -102,8 +106,8 @@ def main(argv):
         for o in r.get('obligations', []):
             if prop not in o['props']:
                 continue
-            if o['kind'] in ('decl',):
-                continue
+            if o['kind'] in ('decl', 'demoted'):
+                continue      # demoted: reported through the unit's undecided entries, never counted as discharged
             n_here += 1
             ok = o['id'] not in failed_ids
             if o['kind'] == 'canary':
